@@ -89,6 +89,16 @@ def program(case):
         if ob["root"] == "obj":       # kindOf? goes through ==, which is not identity for descendants of non-object values
             lines.append("say([" + ", ".join(f"{name}.kindOf?(o{x + 1})" for x in range(n)) + f", {name}.kindOf?(Obj), {name}.kindOf?(BaseObj)])")
             expect.append((f"{name} kindOf?", "out:[" + ", ".join("true" if b else "false" for b in case["kind"][o]) + ", true, true]"))
+    # one list chain over all objects of the forest, with more arguments than the markers name: every receiver gets the same arguments
+    objs = [o for o in range(n) if case["objs"][o]["rk"] == "obj"]
+    if len(objs) >= 2:
+        for k, qn in enumerate(QUERY):
+            for extra in ("7, 8, 9", "7, 8, 9, 10, 11"):
+                lines.append(f"say(nil.try.{{|u| [{', '.join('o%d' % (o + 1) for o in objs)}]@{qn}({extra})}}.A)")
+                each = [expected(case, o, k, "call") for o in objs]
+                bad = next((e for e in each if not e.endswith(", nil]")), None)
+                want = bad if bad else "[[" + ", ".join(e[1:-len(", nil]")] for e in each) + "], nil]"
+                expect.append((f"o{objs[0] + 1} listchain {qn}", "out:" + want))
     return "\n".join(lines), expect
 
 
@@ -129,7 +139,7 @@ def run():
                 oi = int(parts[0][1:]) - 1
                 kind = "-" if c["objs"][oi]["tagged"] else "untagged"
                 kind += "" if c["objs"][oi]["root"] == "obj" else ":root=" + c["objs"][oi]["root"]
-                if len(parts) == 3:
+                if len(parts) == 3 and parts[1] != "listchain":
                     r = c["res"][oi][QUERY.index(parts[2])]
                     kind += f":{r['r']}/{r['kind']}/{'own' if r['owner'] == oi + 1 else 'inherited'}"
                 ck.reject(f"C05:{parts[1]}:{kind}:{c['objs'][oi]['how']}", f"{what}: got {got[4:]}, the forest model gives {want[4:]}",
